@@ -104,7 +104,7 @@ def optimal_clone(
     # Construct the following operator:
     #                                ___               ___
     # Q = ∑_{k=1}^N p_k |ψ_k ⊗ ψ_k ⊗ ψ_k> <ψ_k ⊗ ψ_k ⊗ ψ_k|
-    q_a = np.zeros((dim, dim))
+    q_a = np.zeros((dim, dim), dtype=complex)
     for k, state in enumerate(states):
         q_a += probs[k] * tensor(state, state, state.conj()) @ tensor(state, state, state.conj()).conj().T
 
@@ -178,9 +178,9 @@ def dual_problem(q_a: np.ndarray, pperm: np.ndarray, num_reps: int) -> float:
     kron_var = cvxpy.kron(cvxpy.kron(np.eye(2**num_reps), np.eye(2**num_reps)), y_var)
 
     if num_reps == 1:
-        constraints = [cvxpy.real(kron_var) >> q_a]
+        constraints = [kron_var >> q_a]
     else:
-        constraints = [cvxpy.real(kron_var) >> pperm @ q_a @ pperm.conj().T]
+        constraints = [kron_var >> pperm @ q_a @ pperm.conj().T]
     problem = cvxpy.Problem(objective, constraints)
 
     return problem.solve()
